@@ -1,7 +1,7 @@
 (* C07 — Observe client: notifications in freshness order, termination signalled once.
    Property theorems only; proofs are in Proofs/C07Serial.v, Proofs/C07.v, Proofs/C07Stack.v.
    Model: Gen/protocol_is_recent.v (translated from protocol.py on every run), Model/C07.v, Model/C07Stack.v. *)
-From Verif Require Import Lib.Py Lib.Tactics Gen.protocol_is_recent Model.C07 Model.C07Stack Model.C07Iter Model.C07Blockwise Proofs.C07Serial Proofs.C07 Proofs.C07Stack Proofs.C07Iter Proofs.C07Cancel Proofs.C07Blockwise.
+From Verif Require Import Lib.Py Lib.Tactics Gen.protocol_is_recent Model.C07 Model.C07Stack Model.C07Iter Model.C07Blockwise Proofs.C07Serial Proofs.C07 Proofs.C07Stack Proofs.C07Iter Proofs.C07Cancel Proofs.C07Blockwise Proofs.C07IterRun Proofs.C07Audit.
 From Coq Require Import Permutation.
 Open Scope Z_scope.
 
@@ -223,6 +223,77 @@ Example whole_run_instance :
   grun (GBlocked None None) ([GPush (IMsg 1); GWake; GPush (IMsg 2); GPush (IMsg 3); GPush (IErr ObservationCancelled)] ++ keep_pulling)
   = [IMsg 1; IErr ObservationCancelled].
 Proof. vm_compute. reflexivity. Qed.
+
+(* ================================================================== round 5 (clause audit, notes/audit/B.md) *)
+(* ---- 10. what the async iterator yields in a run of the requester model, for EVERY op list (pipe events, registrations,
+         drains, application cancels): message items, then at most one end (clean stop or an exception), then nothing *)
+Theorem iterator_on_run_ends_at_most_once : forall has_obs reset ops, exists ids tail,
+  itf (concat (run (sys0 has_obs reset) ops)) = map OIt ids ++ tail
+  /\ (tail = [] \/ tail = [OItStop] \/ exists e, tail = [OItExn e]).
+Proof. exact iterator_on_run_ends_once. Qed.
+Print Assumptions iterator_on_run_ends_at_most_once.
+
+(* clause "final response followed by a cancellation signal" is FALSE on the iterator interface (open finding
+   C07:iter-final-response-lost): notification 4 waits for the consumer when final response 5 and its end signal arrive *)
+Theorem iterator_final_response_delivered_refuted :
+  concat (run (sys0 true 128000000)
+    [OpIter; OpEvent 0 (EvMsg 2 (Some 5) false); OpDrain;
+     OpEvent 1000000 (EvMsg 4 (Some 6) false); OpEvent 2000000 (EvMsg 5 None true); OpDrain])
+  = [OResp 2; OEnd; OIt 4; OItStop].
+Proof. exact iterator_final_response_lost. Qed.
+Print Assumptions iterator_final_response_delivered_refuted.
+
+(* ---- 11. in EVERY state and for every op (other than re-registering k): an end signal handed to observer k means the
+         pipe's interest has ended when the op is done (generalises end_signal_releases_interest from live states);
+         token_released_with_interest then gives the released token for every datagram history.  The composition into one
+         statement over srun is not proved. *)
+Theorem end_signal_releases_interest_in_every_state : forall k s o, (forall k', o = OpRegister k' -> k' <> k) ->
+  end_signals (view k (snd (step s o))) <> [] -> s_ended (fst (step s o)) = true.
+Proof. exact step_end_signal_ends. Qed.
+Print Assumptions end_signal_releases_interest_in_every_state.
+
+(* clause 5 on the network: a first response without Observe option of any type ends the observation as NotObservable
+   and releases the token *)
+Theorem stack_first_response_without_observe : forall k reset t0 now mt id mid, mt <> RST ->
+  let k1 := fst (sstep (stack0 true reset false t0) (SApp t0 (OpRegister k))) in
+  let r := sstep k1 (SResponse now mt id None true mid) in
+  view k (apps (snd r)) = [EndSignal (Some NotObservable)] /\ k_token (fst r) = false.
+Proof. exact stack_first_response_no_observe. Qed.
+Print Assumptions stack_first_response_without_observe.
+
+(* ---- 12. freshest-delivered on the run itself (not on the helper accept) *)
+Theorem freshest_delivered_on_run : forall k reset t0 id0 v0 ops base lo, no_reg k ops ->
+  in_window base v0 -> timely lo reset t0 ->
+  Forall (fun n => in_window base (n_v n) /\ timely lo reset (n_t n)) (live_notifs ops) ->
+  exists acc, deliveries (observed k reset (OpEvent t0 (EvMsg id0 (Some v0) false) :: ops)) = map n_id acc ++ final_response ops
+    /\ Subseq acc (live_notifs ops) /\ increasing base v0 acc
+    /\ off base (last_v v0 acc) = max_off base v0 (live_notifs ops).
+Proof. exact freshest_on_run. Qed.
+Print Assumptions freshest_delivered_on_run.
+
+(* ---- 13. the 128 s of the property text is the constant the code reads *)
+Theorem reset_time_is_128 : OBSERVATION_RESET_TIME = 128.
+Proof. exact reset_time_128. Qed.
+Print Assumptions reset_time_is_128.
+
+Theorem default_tuning_resets_after_128_s : forall v t1 t2,
+  is_recent v v t1 t2 (OBSERVATION_RESET_TIME * 1000000) = true <-> t2 > t1 + 128000000.
+Proof. exact default_tuning_time_rule. Qed.
+Print Assumptions default_tuning_resets_after_128_s.
+
+(* ---- 14. clause 7 split: a transport failure BEFORE the first response ends the observation as NotObservable (the
+         exception goes to request.response) — open finding C07:first-failure-signalled-as-not-observable *)
+Theorem transport_failure_before_first_response : forall k reset now e post, no_reg k post ->
+  map (view k) (run (sys0 true reset) (OpRegister k :: OpEvent now (EvExn e) :: post))
+  = [] :: [EndSignal (Some NotObservable)] :: map (fun _ => []) post.
+Proof. exact failure_before_first_response. Qed.
+Print Assumptions transport_failure_before_first_response.
+
+Theorem network_error_on_failed_request_refuted :
+  run (sys0 true 128000000) [OpRegister 0; OpEvent 0 (EvExn NetworkError)]
+  = [[]; [ORespExn NetworkError; OEb 0 (Some NotObservable); OEnd]].
+Proof. exact network_error_signalled_refuted. Qed.
+Print Assumptions network_error_on_failed_request_refuted.
 
 (* ================================================================== non-vacuity *)
 (* a concrete reordered, duplicated, wrapping history: first response Observe 2^24-2; arrivals 2^24-1, 1, 0 (late),
